@@ -255,7 +255,7 @@ class MappedDFTKernel2(KernelEvalBase2, XCEvalSerializable):
     def to_dict(self):
         return {
             "fevals": [fe.to_dict() for fe in self.fevals],
-            "feature_list": self.feature_list.to_dict(),
+            "feature_list": self.feature_list.as_dict(),
             "mode": self.mode,
         }
 
